@@ -64,7 +64,14 @@ class RemoteValueSetpointShift(RemoteValue[float]):
                 f"Setpoint shift DPT not initialized for {self.device_name}"
             )
         if self._internal_dpt_class == DPTValue1Count:
-            converted_value = round(value / self.setpoint_shift_step)
+            try:
+                converted_value = round(value / self.setpoint_shift_step)
+            except (ValueError, TypeError, OverflowError) as err:
+                raise ConversionError(
+                    "Could not convert setpoint shift value",
+                    value=value,
+                    device_name=self.device_name,
+                ) from err
             return DPTValue1Count.to_knx(converted_value)
         return DPTTemperature.to_knx(value)
 
